@@ -329,8 +329,9 @@ theorem extents_append (l1 l2 : Chunks) (cs s : List Nat) :
 /-! ## partial_reduce -/
 
 theorem prBlockFrom_ok (p : PartialReduce) (xs : Chunks) (i : Nat)
-    (hax : ∀ j c k b, xs[j]? = some c → p.split.lookup (i + j) = some k → b < ceilDiv c.length k →
-      0 < k ∧ prAxisLen p (i + j) k c.length b = (p.combine.lookup (i + j)).getD 1)
+    (hax : ∀ j c k b v, xs[j]? = some c → p.split.lookup (i + j) = some k →
+      (prAxisChunks p (i + j) c)[b]? = some v →
+      b * k < c.length ∧ prAxisLen p (i + j) k c.length b = v)
     (coords s : List Nat) (he : extents (mapIdxFrom (prAxisChunks p) i xs) coords = some s) :
     prBlockFrom p i xs coords = some s := by
   induction xs generalizing i coords s with
@@ -347,37 +348,33 @@ theorem prBlockFrom_ok (p : PartialReduce) (xs : Chunks) (i : Nat)
       simp only [prBlockFrom]
       have htail : prBlockFrom p (i + 1) cs bs = some vs := by
         apply ih (i + 1) _ bs vs hvs
-        intro j c' k b' hj hk hb
+        intro j c' k b' v' hj hk hb
         have e : i + 1 + j = i + (j + 1) := by omega
-        rw [e] at hk ⊢
-        exact hax (j + 1) c' k b' (by simpa using hj) hk hb
+        rw [e] at hk hb ⊢
+        exact hax (j + 1) c' k b' v' (by simpa using hj) hk hb
       rw [htail]
       have hhead : prAxisBlock p i c b = some v := by
         unfold prAxisBlock
-        unfold prAxisChunks at hv
         cases hk : p.split.lookup i with
-        | none => rw [hk] at hv; simpa using hv
+        | none =>
+          unfold prAxisChunks at hv
+          rw [hk] at hv; simpa using hv
         | some k =>
-          rw [hk] at hv
-          simp only at hv ⊢
-          rw [List.getElem?_replicate] at hv
-          split at hv
-          · next hb =>
-            have h0 := hax 0 c k b (by simp) (by simpa using hk) hb
-            rw [if_pos ((lt_ceilDiv_iff b c.length k h0.1).mp hb)]
-            simp only [Nat.add_zero] at h0
-            rw [h0.2]; exact hv
-          · simp at hv
+          have h0 := hax 0 c k b v (by simp) (by simpa using hk) (by simpa using hv)
+          simp only [Nat.add_zero] at h0
+          simp only
+          rw [if_pos h0.1, h0.2]
       rw [hhead]; rfl
 
 theorem prBlock_ok (p : PartialReduce)
-    (hax : ∀ j c k b, p.x[j]? = some c → p.split.lookup j = some k → b < ceilDiv c.length k →
-      0 < k ∧ prAxisLen p j k c.length b = (p.combine.lookup j).getD 1)
+    (hax : ∀ j c k b v, p.x[j]? = some c → p.split.lookup j = some k →
+      (prAxisChunks p j c)[b]? = some v →
+      b * k < c.length ∧ prAxisLen p j k c.length b = v)
     (coords s : List Nat) (he : extents (prChunkss p) coords = some s) : prBlock p coords = some s := by
   apply prBlockFrom_ok p p.x 0 _ coords s he
-  intro j c k b hj hk hb
-  simp only [Nat.zero_add] at hk ⊢
-  exact hax j c k b hj hk hb
+  intro j c k b v hj hk hb
+  simp only [Nat.zero_add] at hk hb ⊢
+  exact hax j c k b v hj hk hb
 
 /-- the blocks of one group `b` of a scan level: `min k (nb - b*k) = k` exactly when `k` divides `nb`. -/
 theorem concat_group_full (k nb b : Nat) (hk : 0 < k) (hd : k ∣ nb) (hb : b < ceilDiv nb k) :
@@ -1307,5 +1304,59 @@ theorem arraySlices_len (lens : List Nat) (i off start stop : Nat) :
     simp only [piecesLen] at this
     rw [this]
     split <;> simp <;> omega
+
+
+/-! ## repaired stack: the operands are unified first -/
+
+theorem zipWith_regGrid_self (a : Chunks) (hcan : ∀ c ∈ a, Canon c) :
+    List.zipWith regGrid (chunkSize a) (shapeOf a) = a := by
+  unfold chunkSize shapeOf
+  induction a with
+  | nil => rfl
+  | cons c cs ih =>
+    simp only [List.map_cons, List.zipWith_cons_cons]
+    rw [canon_regrid_self c (hcan c (by simp)), ih (fun c' hc' => hcan c' (by simp [hc']))]
+
+theorem stackUnify_all_eq (args : List Chunks) (a : Chunks) (rest : List Chunks) (hargs : args = a :: rest)
+    (hcan : ∀ c ∈ a, Canon c) (hnz : (shapeOf a).any (· == 0) = false)
+    (u : List Chunks) (hu : stackUnify args = some u) : ∀ x ∈ u, x = a := by
+  subst hargs
+  unfold stackUnify at hu
+  simp only at hu
+  split at hu
+  · simp at hu
+  · next hshape =>
+    simp only [Option.some.injEq] at hu
+    subst hu
+    intro x hx
+    obtain ⟨y, hy, rfl⟩ := List.mem_map.mp hx
+    have hsy : shapeOf y = shapeOf a := by
+      have := hshape
+      simp only [Bool.not_eq_true, List.any_eq_false] at this
+      have h' := this y hy
+      simpa using h'
+    split
+    · next h => simpa using h
+    · rw [hsy, hnz]
+      simp only [Bool.false_eq_true, if_false]
+      exact zipWith_regGrid_self a hcan
+
+/-! ## repaired qr: short row chunks are rejected -/
+
+theorem qr1Chunkss_eq (a : Chunks) (q r : Chunks) (h : qr1Chunkss a = some (q, r)) :
+    ∃ rows n, a = [rows, [n]] ∧ (∀ m ∈ rows, n ≤ m) ∧ q = [rows, [n]] ∧ r = [List.replicate rows.length n, [n]] := by
+  unfold qr1Chunkss at h
+  split at h
+  · next rows n =>
+    split at h
+    · simp at h
+    · next hany =>
+      simp only [Option.some.injEq, Prod.mk.injEq] at h
+      refine ⟨rows, n, rfl, ?_, h.1.symm, h.2.symm⟩
+      intro m hm
+      simp only [Bool.not_eq_true, List.any_eq_false, decide_eq_true_eq] at hany
+      have := hany m hm
+      omega
+  · simp at h
 
 end Cubed.ShapeCalc
